@@ -22,7 +22,7 @@ SCEN = {  # the harness scenarios as histories of the model: the environment's p
     "peer-closed-first": "p_connect ++ [LSockDie 0; LRp 0; LWpCwp 0; LWpLock 0; LWpRel 0 true; LLc; LRtFired; LRt true; LRt true; LDial false; LNewClose]",
 }
 CFG_ORDER = ["invoke_nil", "handler_nil", "rp_cconn", "rp_wdone", "wr_wdone", "wp_sock", "wp_cc_sock", "inv_connctx", "close_again", "csm_final"]
-STRUCT = ["rt_unlock_before_close", "wg_add_before_go", "rt_backoff_ctx", "resp_nonblocking"]
+STRUCT = ["rt_unlock_before_close", "wg_add_before_go", "rt_backoff_ctx", "resp_nonblocking", "wr_arms"]
 ASSUMPTIONS = ["'bounded' is observed as 3 s (6 s before a hang is declared); goroutines are counted from a stack dump"]
 FILES = ["root/fake_test.go", "root/c16_test.go", "root/c07_test.go", "root/peers_test.go", "root/c18_test.go", "root/c06_test.go", "root/session_test.go", "root/c01_test.go", "root/c14_test.go", "root/c09_test.go"]
 RW = {"server.go": [(r"\btransport\.NewServerTransport\(", "vNewServerTransport(")],
